@@ -55,6 +55,9 @@ ASSUMPTIONS = ['io.BytesIO read/seek/tell semantics (seek >= 2^63 raises Overflo
                'built with; file_* streams: the container is modelled too (C01 mirror of elffile.py)',
                'hist: the position of the stream after a call that raised is not compared (wherever construct stopped '
                'reading); it is compared again after the next call that positions the stream absolutely',
+               'hist: on a MUTATED section carrying a ten-byte ULEB128 length the generators\' bare stream.seek(offset >= 2^63) is '
+               'CPython\'s OverflowError where the model reports the following short read (ELFParseError); that outcome pair '
+               'alone is set aside and counted (hist:set-aside:bare-seek-beyond-2^63)',
                'CPython recursion limit not reached (< 300 nested TAG_ALSO_COMPATIBLE_WITH)',
                'str is compared through its UTF-8 bytes']
 
@@ -1228,6 +1231,24 @@ def hist_compare(ops, answers, poss, steps):
     return None
 
 
+def bare_seek_beyond(d, a, b):
+    """A boundary of the history model, stated as an ASSUMPTION: a mutated section whose length / size field decodes to
+    >= 2^63 makes the sub-subsection and attribute generators `stream.seek(offset)` (a BARE seek) beyond PY_SSIZE_T_MAX,
+    which is CPython's OverflowError, where the model reports the short read that would follow (ELFParseError).  Such a
+    difference is set aside — only this pair of outcomes, and only when the input really carries a ULEB128 value of
+    ten bytes (nine continuation bytes in a row); everything else about the case is compared as usual."""
+    got, model = d[2], d[3]
+    if not (isinstance(got, dict) and isinstance(model, dict) and got.get('err') == 'overflowError' and model.get('err') == 'elfParseError'):
+        return False
+    for data in (a, b):
+        run = 0
+        for x in data:
+            run = run + 1 if x & 0x80 else 0
+            if run >= 9:
+                return True
+    return False
+
+
 def run_hist(ctx):
     rng = ctx.rng('hist')
     n = ctx.budget(150, 6000)
@@ -1273,6 +1294,9 @@ def run_hist(ctx):
             ctx.out.violation('property', 'hist', case, step=step, expect=want, got=got, model=r['steps'][step])
             continue
         d = hist_compare(ops, answers, poss, r['steps'])
+        if d is not None and bare_seek_beyond(d, c['a'], c['b']):
+            ctx.out.count('hist:set-aside:bare-seek-beyond-2^63')
+            continue
         if d is not None:
             ctx.out.violation('correspondence', 'hist', case, step=d[0], what=d[1], got=d[2], model=d[3])
 
@@ -1366,6 +1390,8 @@ def replay(ctx, payload):
         data, pos0, ops, answers, poss, problems = run_hist_case(c)
         r = ctx.driver.ask(hist_req(c, data, pos0, ops))
         d = hist_compare(ops, answers, poss, r['steps'])
+        if d is not None and bare_seek_beyond(d, c['a'], c['b']):
+            d = None
         res.update(problems=problems[:1], diff=d, impl=answers[d[0]] if d else None, fails=bool(problems) or d is not None)
     elif stream == 'bc':
         a = bytes.fromhex(case['hex'])
